@@ -421,7 +421,9 @@ func (c1 int64Const) representedBy(typ reflect.Type) (constant, error) {
 	case reflect.Float32, reflect.Complex64:
 		return float64Const(float32(c1)), nil
 	case reflect.Float64, reflect.Complex128:
-		return c1, nil
+		// The constant is represented as a floating point constant, so that
+		// the operations on it, as the division, are not done on integers.
+		return float64Const(float64(c1)), nil
 	default:
 		return nil, errNotRepresentable
 	}
